@@ -266,6 +266,7 @@ func judgeSched(c SchedCase) *eng.Fail {
 	for i, n := range threads {
 		bodies[i] = C09Body(n)
 	}
+	resetPools()
 	x := sched.Run(bodies, c.Schedule, 5*time.Second)
 	if x.Stalled {
 		return nil
@@ -348,6 +349,7 @@ func runC09(w *eng.W) {
 			Bound: bound,
 			Stall: 5 * time.Second,
 			Bodies: func() []func() string {
+				resetPools() // every execution starts from the same (empty) pool state
 				if cold {
 					C09Setup()
 				}
@@ -418,6 +420,7 @@ func runC09(w *eng.W) {
 		outs := map[string]bool{}
 		ex := &sched.Explorer{Bound: 2, Stall: 5 * time.Second,
 			Bodies: func() []func() string {
+				resetPools()
 				c09ControlRunner = formula.NewRunner()
 				c09ControlRunner.SetThis(map[string]interface{}{})
 				return []func() string{C09Body("shared-runner:1"), C09Body("shared-runner:2")}
